@@ -43,6 +43,7 @@ def run(ctx, crate):
     rule_iter_finish(ctx, crate)
     rule_is_finished(ctx, crate)
     rule_on_finish_writers(ctx, crate)
+    rule_status_writers(ctx, crate)
     D.rule_finished_draws_forced(ctx, crate)
     # "visibly finished bars keep their final rendering": the rows of a reaped finished bar are kept by their wrap-aware count
     D.rule_rows_newtype(ctx, crate)
@@ -438,6 +439,49 @@ def rule_is_finished(ctx, crate, rule="R-IS-FINISHED"):
         ctx.check(vals == {want}, rule, "status:%s" % v, b.name, K.fn_loc(b), "is_finished() == %s for Status::%s" % (want, v),
                   "is_finished() returns %s for Status::%s" % (sorted(map(str, vals)), v), cfg)
     ctx.floor(rule, n, 3, cfg, "Status arms in is_finished")
+
+
+def rule_status_writers(ctx, crate, rule="R-STATUS-WRITERS"):
+    """"afterwards is_finished() is true and dropping an already finished bar changes nothing on screen": the finished status is
+    left only by a full `reset()`. Who-may-write check on `ProgressState::status`: a Done status is stored only by
+    finish_using_style, `InProgress` only by BarState::reset and there only in the region of `Reset::All` - reset_eta() and
+    reset_elapsed() share that function and must leave the status alone (a finished bar that is un-finished by reset_elapsed()
+    is finished a second time, with its configured finish behaviour, when its last handle is dropped: seed C04k)."""
+    cfg = crate.config
+    n = 0
+    for b in K.lib_bodies(crate):
+        owner = K.owner_fn(crate, b)
+        refs = b.ref_origins()
+        for i, s, vs in status_stores(b):
+            fs = place_fields(s["lhs"])
+            if not fs or fs[-1][0] != "state::ProgressState":
+                continue
+            n += 1
+            loc = "%s:%d" % (b.file, s.get("line", 0))
+            if vs and vs <= {"DoneVisible", "DoneHidden"}:
+                ctx.check(owner == "state::BarState::finish_using_style", rule, "done-store:%s" % K.meth(owner), b.name, loc,
+                          "a Done status is stored by finish_using_style", "%s marks the bar finished without going through finish_using_style (no final frame)" % owner, cfg)
+            else:
+                ok = owner == "state::BarState::reset" and any(
+                    vs_ == {"All"} and i in reg for vs_, reg, sb, pl in K.variant_regions(b, crate, "state::Reset"))
+                ctx.check(ok, rule, "in-progress-store:%s" % K.meth(owner), b.name, loc,
+                          "the status goes back to InProgress only in reset(), for Reset::All",
+                          "%s stores %s into the status outside the Reset::All region of BarState::reset: reset_eta()/reset_elapsed() (or another call) un-finish a "
+                          "finished bar, and dropping its last handle then finishes it a second time (AndClear wipes the visibly finished bar; an abandoned bar "
+                          "jumps to its length)" % (owner, sorted(vs) or "a computed value"), cfg)
+        for c in b.calls():
+            if c.matches(*b.REF_FORWARD):
+                continue
+            for a in c.args:
+                l = operand_local(a)
+                if l is None or "&mut" not in b.locals[l]["ty"] or "state::Status" not in b.locals[l]["ty"]:
+                    continue
+                if any("status" in tp for tl, tp in refs.get(l, ())):
+                    n += 1
+                    ctx.check(owner in ("state::BarState::finish_using_style",), rule, "mut-borrow:%s" % K.meth(c.path), b.name, c.loc(),
+                              "the status is mutably borrowed only where a Done status is stored",
+                              "%s takes `&mut status` in %s: the status is rewritten outside finish_using_style / reset(All)" % (c.path, owner), cfg)
+    ctx.floor(rule, n, 2, cfg, "stores into ProgressState::status")
 
 
 def rule_on_finish_writers(ctx, crate, rule="R-ON-FINISH-WRITERS"):
